@@ -111,6 +111,11 @@ class C01(Prop):
         out.append({'steps': [{'src': "- a\n\n.+container\n> - b\n", 'reset': True, 'callback': True}]})
         out.append({'steps': [{'src': "- a\n\n.+container\n  x\n\n  . b\n\n- c", 'reset': True, 'callback': True}]})
         out.append({'steps': [{'src': "{m} = '$" + '1' * 5000 + "'\n{m|a}", 'reset': True, 'callback': True}]})
+        # F28 and its sibling in macros.render: every way in which CPython's pattern parser fails
+        for rx_ in gen.HOSTILE_REGEX:
+            out.append({'steps': [{'src': "/%s/ = 'x'\nabc" % rx_, 'reset': True, 'callback': True}]})
+            out.append({'steps': [{'src': "{m} = 'x'\n{m=%s}text {m!%s}" % (rx_.replace('}', '\\}'), rx_.replace('}', '\\}')), 'reset': True,
+                                   'callback': True}]})
         for hr in ['\x00', 'a\x01b', '\x02']:
             out.append({'steps': [{'src': "{m} = '$$1'\n{m|<b>} <i>", 'safeMode': 10, 'htmlReplacement': hr, 'reset': True,
                                    'callback': True}]})
@@ -170,13 +175,26 @@ class C03(Prop):
                     '.#id "a:b"\n- item\n\n.x\nt:: d', '# H\n## H', "{--header-ids} = 'x'\n# A b\n# A b"]:
             for mode in [1, 2, 3, 11, 15]:
                 out.append({'steps': [{'src': src, 'safeMode': mode, 'callback': True}]})
+        # F29: block options left pending by a trusted render (no definitions changed) meet an untrusted first block
+        for pend in ['.-specials', '.-specials -spans', '.-spans', '.-macros -specials', '.+macros -specials -spans']:
+            for src in ['``\n<script>x</script>\n``', 'a <script>x</script> b', '  <b>ind</b>', '> <i>q</i>', '..\n<u>d</u>\n..',
+                        '- <b>item</b>', '# <b>h</b>']:
+                for mode in [1, 2, 3, 9]:
+                    out.append({'steps': [{'src': 'intro\n\n' + pend, 'safeMode': 0, 'callback': True, 'trusted': True},
+                                          {'src': src, 'safeMode': mode, 'callback': True}]})
         return out
+
+    PENDING = ['.-specials', '.-specials -spans', '.-spans', '.+macros', '.-macros', '.cls #i1 "color:red"', '.+skip', '.-container',
+               '.+container', '.k -specials +macros -spans']
 
     def cases(self, ctx):
         rng = ctx.rng
         while True:
             mode = rng.choice(NONZERO_POLICY_MODES)
             steps = []
+            if rng.random() < 0.15:
+                # a trusted render at safe mode 0 that changes no definition but leaves Block Attributes pending
+                steps.append({'src': gen.words(rng) + '\n\n' + rng.choice(self.PENDING), 'safeMode': 0, 'callback': True, 'trusted': True})
             for i in range(rng.choice([1, 1, 1, 2, 3])):
                 st = {'src': hostile_source(rng, ctx.repo), 'safeMode': mode if i == 0 or rng.random() < 0.5 else rng.choice(NONZERO_POLICY_MODES),
                       'callback': True}
@@ -187,12 +205,19 @@ class C03(Prop):
 
     def execute(self, case, ctx, res):
         outs_i, outs_m, ok = run_session(ctx, case['steps'], res, case)
-        repl = case['steps'][0].get('htmlReplacement')
+        repl = None
+        for st in case['steps']:
+            if st.get('htmlReplacement') is not None:
+                repl = st['htmlReplacement']
+                break
         if repl is None:
             repl = DEFAULT_REPLACEMENT
         for i, a in enumerate(outs_i):
             if a[0] != 'ok':
                 res.count('not_ok_' + a[0])
+                continue
+            if case['steps'][i].get('trusted'):
+                res.count('trusted_first_step')
                 continue
             res.oracle_checks += 1
             toks, err = htmlcheck.tokenize(a[1], repl or None, strict=True)
@@ -322,8 +347,17 @@ class C05(Prop):
             src = gen.document(rng, 1, 2) + rng.choice(['\n..\nunterminated', '\n```\ncode', "\n{m} = 'multi\nline", '\n- item\n  ..'])
         else:
             src = gen.any_source(rng, ctx.repo)
-        return {'src': clean(src), 'safeMode': rng.choice([None, 0, 0, 0, 1, 5, 15, 'x']), 'reset': rng.choice([None, None, False, True]),
-                'htmlReplacement': rng.choice([None, None, 'HR']), 'callback': rng.random() < 0.5}
+        st = {'src': clean(src), 'safeMode': rng.choice([None, 0, 0, 0, 1, 5, 15, 'x']), 'reset': rng.choice([None, None, False, True]),
+              'htmlReplacement': rng.choice([None, None, 'HR']), 'callback': rng.random() < 0.5}
+        if rng.random() < 0.12:
+            # a caller that abandons the call at the first diagnostic (its callback raises): the render stops in the middle of a
+            # list, a container, a span ... and leaves whatever scratch state it had
+            st['src'] = clean(rng.choice(['- first\n  . {undefined-macro} second', '. a\n.. b {undef}\n... c', '..\n""\n- x {nope}\n""\n..',
+                                          't:: d\n\n  ``\n  c\n\n.#dup\n.#dup\npara\n\n.#dup\nagain', '*a [b](u {undef}) c*',
+                                          '.cls +skipx\n- item', gen.list_block(rng) + ' {undef}\n- more']))
+            st['abort'] = True
+            st['safeMode'] = rng.choice([None, 0, 1, 9])
+        return st
 
     def cases(self, ctx):
         rng = ctx.rng
@@ -344,6 +378,12 @@ class C05(Prop):
             model.reset_process()
         import_state = ctx.impl.state()
         for st in hist:
+            if st.get('abort'):
+                a = ctx.impl.render(st['src'], abort=True, **{k: v for k, v in step_kwargs(st).items() if k != 'callback'})
+                res.count('aborted_history_step' if a[0] == 'aborted' else 'abort_step_completed')
+                if a[0] == 'aborted':
+                    model = None    # the model has no counterpart of an abandoned call
+                    continue
             a = ctx.impl.render(st['src'], **step_kwargs(st))
             if model:
                 b = model.render(st['src'], **step_kwargs(st))
